@@ -421,10 +421,17 @@ def check_C03(ck):
     e0 = evals[0]
     if e0 is not None:
         sc = [(1, (1 << 255) + 5), ((1 << 256) - 1, 1), (2 * R + 5, 3), (R - 1, R + 2), (rng.randrange(1 << 256), rng.randrange(1 << 256))]
+        nproj = len(sc)
+        # the same through CurveAffine::mul, with scalars at limb boundaries (a zero limb below a non-zero one, single high limbs)
+        sc += [(1 << 64, 3), ((1 << 128) + 5, 1 << 64), (1 << 192, (1 << 192) + (1 << 64)), (rng.randrange(R), (rng.randrange(1 << 64) << 128) | 7), (R, 1), (5, R + 1)]
         mc = []
-        for (a, b) in sc:
-            mc.append(("impl-mul", "g1 mul %s %x" % (g1.J(P), a)))
-            mc.append(("impl-mul", "g2 mul %s %x" % (g2.J(Qp), b)))
+        for i_, (a, b) in enumerate(sc):
+            if i_ < nproj:
+                mc.append(("impl-mul", "g1 mul %s %x" % (g1.J(P), a)))
+                mc.append(("impl-mul", "g2 mul %s %x" % (g2.J(Qp), b)))
+            else:
+                mc.append(("impl-affine-mul", "g1 affmul %s %x" % (g1.A(P), a)))
+                mc.append(("impl-affine-mul", "g2 affmul %s %x" % (g2.A(Qp), b)))
         mr = ck.run(mc)
         pc, pe = [], []
         for i, (a, b) in enumerate(sc):
@@ -463,8 +470,9 @@ def check_C11(ck):
     sres = ck.run(singles)
     val = {i: O.parse_f12(sres[i][0]) for i in range(len(pool)) if sres[i][0].count(",") == 11}
     cases, exp = [], []
-    for trial in range(6 if not thorough else 40):
-        ln = rng.choice([0, 1, 2, 3, 5, 8] if not thorough else list(range(0, 13)))
+    long_lens = [16, 17, 33] if not thorough else [15, 16, 17, 20, 31, 32, 33, 48, 49, 64, 65]
+    trials = [rng.choice([0, 1, 2, 3, 5, 8] if not thorough else list(range(0, 13))) for _ in range(6 if not thorough else 40)] + long_lens
+    for ln in trials:
         ps, qs, prod = [], [], O.F12_ONE
         for _ in range(ln):
             kind = rng.randrange(5)
@@ -495,6 +503,12 @@ def check_C11(ck):
                 for sg in signs:
                     prod = O.f12_mul(prod, val[0] if sg > 0 else inv0)
                 cases.append(("multi/sign-pattern-%s" % side, "pairmulti %s %s" % (";".join(g1.A(P) for P in ps), ";".join(g2.A(Qp) for Qp in qs)))); exp.append(O.show_f12(prod))
+    # long lists (any batching of the slice helper must not change the product), ending in a cancelling pair
+    if 0 in val:
+        for ln in ([17, 33] if not thorough else [16, 17, 31, 33, 47, 65]):
+            ps = [P0] * (ln - 1) + [g1.C.mul(P0, R - (ln - 1))]
+            qs = [Q0] * ln
+            cases.append(("multi/long-cancelling-len%d" % ln, "pairmulti %s %s" % (";".join(g1.A(P) for P in ps), ";".join(g2.A(Qp) for Qp in qs)))); exp.append(O.show_f12(O.F12_ONE))
     # cancelling exponents: e(aP,Q) e(-aP,Q) = 1 ; sum a_i b_i = 0 mod r
     P, Qp = pool[0]
     a = rng.randrange(1, R)
@@ -919,6 +933,24 @@ def check_C07(ck):
             outs.append(("h2c", "h2c %s xmd256 ro %s 51" % (tag, bytes(rng.randrange(256) for _ in range(5)).hex())))
             outs.append(("mul", "%s mul %s %x" % (tag, g.J(g.sub_pt(rng), g.lam(rng)), rng.randrange(1 << 256))))
             outs.append(("add", "%s add %s %s" % (tag, g.J(g.sub_pt(rng), g.lam(rng)), g.J(g.sub_pt(rng), g.lam(rng)))))
+        # every decoding / deserialization route hands out members only: points of the curve outside the subgroup and pairs off
+        # the curve, in both encodings, through EncodedPoint::into_affine and the four SerDes impls (affine / projective)
+        bad_pts = [("low-order", g.low(g.small[0], rng)), ("full-curve", g.full(rng)), ("low+subgroup", C.add(g.low(g.small[-1], rng), g.sub_pt(rng)))]
+        xo = K.rand(rng)
+        bad_pts.append(("off-curve", (xo, K.rand(rng))))
+        dcases = []
+        for (cl, Pb) in bad_pts:
+            for comp in (True, False):
+                if cl == "off-curve" and comp:
+                    continue
+                bs = O.encode(K, Pb, comp).hex()
+                fl = 1 if comp else 0
+                dcases.append(("decode-route/%s/%s" % (cl, "c" if comp else "u"), "%s %s %s" % (tag, "dec_c" if comp else "dec_u", bs)))
+                for kind in ("aff", "jac"):
+                    dcases.append(("deser-route/%s/%s/%s" % (cl, kind, "c" if comp else "u"), "%s deser_%s %s %d" % (tag, kind, bs, fl)))
+                    dcases.append(("deser-route-chunked/%s/%s/%s" % (cl, kind, "c" if comp else "u"), "%s deser_%s_ch %s %d %x" % (tag, kind, bs, fl, 7)))
+        for c, (impl, _) in zip(dcases, ck.run(dcases)):
+            ck.expect(impl.startswith("ERR"), "invariant:decoders-hand-out-members-only", c[1][:120], impl[:80], "ERR:*", "a point outside the subgroup / off the curve is rejected by every decoding route")
         # map2_to_curve on input pairs whose SSWU images coincide or cancel (the sum needs the doubling / inverse case)
         us7 = [K.zero, K.one] + [K.rand(rng) for _ in range(4 if not thorough else 16)]
         if tag == "g1":
@@ -1956,6 +1988,15 @@ def check_C20(ck):
                  "g2 wnafshare_scalar %x %s" % (k // 3, ";".join(g2.J(g2.sub_pt(rng)) for _ in range(3))),
                  "pairshare %s %s" % (";".join(g1.A(g1.C.mul(P, j + 1)) for j in range(4)), g2.A(Qp)),
                  "g2 pip 4 %s;%s %x;%x" % (g2.A(Qp), g2.A(g2.gen), k, k // 7),
+                 # a REJECTED request (the library panics: scalar with bit 255 set, after other scalars were already processed)
+                 # followed by valid requests on the same thread: nothing of the failed call may survive
+                 "g1 pip 2 %s;%s;%s %x;%x;%x" % (g1.A(P), g1.A(g1.gen), g1.A(P), (3 << 253) | 5, (1 << 254) | 9, 1 << 255),
+                 "g1 pip 2 %s;%s %x;%x" % (g1.A(g1.gen), g1.A(P), (3 << 253) | 1, k >> 1),
+                 "g1 pip 3 %s;%s %x;%x" % (g1.A(g1.gen), g1.A(P), (7 << 252) | 1, k >> 1),
+                 "g1 sop %s;%s %x;%x" % (g1.A(g1.gen), g1.A(P), (5 << 252) | 3, k >> 2),
+                 "g2 pip 5 %s;%s %x;%x" % (g2.A(Qp), g2.A(g2.gen), (1 << 254) | (1 << 253) | 7, 1 << 255),
+                 "g2 pip 5 %s;%s %x;%x" % (g2.A(g2.gen), g2.A(Qp), (1 << 254) | 3, k >> 3),
+                 "g2 pip 2 %s %x" % (g2.A(Qp), (3 << 253) | 3),
                  "g1 enc_c %s" % g1.A(P), "fq12 frob %s 7" % O.show_f12(O.f12_unflat([rng.randrange(Q) for _ in range(12)]))]
     base = ck.run([("sequential", w) for w in work])
     ref = [a for (a, _) in base]
